@@ -2,20 +2,12 @@
    shipped relation table, for the C14/C13/C19 correspondence. *)
 From Coq Require Import List Bool ZArith.
 Import ListNotations.
-From V Require Import PyBase NxModel Engine_gen Shipped_gen.
+From V Require Import PyBase NxModel Engine_gen Shipped_gen ShippedGraph.
 Open Scope Z_scope.
 
-Definition dummy_guard : unit -> unit -> res (bool * unit) := fun _ st => Ok (false, st).
-Definition dummy_trans : unit -> unit -> res (unit * unit) := fun d st => Ok (d, st).
-
-Definition shipped_relations (t : ty) : list (relation ty unit unit) :=
-  map (fun '(r, inf, _, _) => mkRel r t inf dummy_guard dummy_trans) (declared t).
-
-Definition shipped_ctx : ctx ty unit unit unit unit :=
-  mkCtx ty_eqb (fun _ _ => true) shipped_relations (fun _ _ st => Ok (true, st))
-        (fun t => ty_eqb t tGeneric) tGeneric (fun l => l) (fun _ => tt) (fun _ => 0) (fun d _ => d)
-        (fun _ => []) (fun _ _ => Raise KeyError) (fun _ => tt) (fun l => l)
-        (fun _ _ => Raise KeyError) (fun t => Z.of_nat (ty_name t)) (fun _ _ => 0).
+(* the SAME instance the theorems of props/C14.v are about (theory/ShippedGraph.v), with the identity as
+   set iteration order: the harness passes the types already in the order Python's set iterates them *)
+Definition shipped_ctx : ctx ty unit unit unit unit := shipped_ctx_with (fun l => l) (fun _ _ => 0).
 
 Definition exn_code (e : exn) : Z :=
   match e with
@@ -75,11 +67,7 @@ Definition enc_render (nodes : list ty) (edges : list (ty * ty * option style)) 
   pack ([Z.of_nat (length nodes)] ++ map ty_index nodes ++ [Z.of_nat (length edges)] ++
         flat_map (fun '(u, v, s) => [ty_index u; ty_index v; match s with Some st => style_code st | None => 2 end]) edges).
 
-Definition export_ctx : ctx ty unit unit unit unit :=
-  mkCtx ty_eqb (fun _ _ => true) shipped_relations (fun _ _ st => Ok (true, st))
-        (fun t => ty_eqb t tGeneric) tGeneric (fun l => l) (fun _ => tt) (fun _ => 0) (fun d _ => d)
-        (fun _ => []) (fun _ _ => Raise KeyError) (fun _ => tt) (fun l => l)
-        (fun _ _ => Raise KeyError) (fun t => Z.of_nat (ty_name t)) enc_render.
+Definition export_ctx : ctx ty unit unit unit unit := shipped_ctx_with (fun l => l) enc_render.
 
 Definition tys_of (order : list Z) : list ty :=
   flat_map (fun i => match ty_of_index i with Some t => [t] | None => [] end) order.
